@@ -220,8 +220,10 @@ CHECKS["C08"] = dict(
           "fitted values shift; affine time change with ls_time scaled leaves the time kernel unchanged and scales time derivatives by 1/a; "
           "Gram(PX) = P Gram(X) P^T and objective/loss permutation laws. ~50 pairs of real fits on transformed data check the inference "
           "problem tightly and the optimised values with a tolerance tied to the optimiser (support)."),
-    note=("Trusted: as C05/C03/C01. Uniqueness of the minimiser is a hypothesis of fitted_follow_permutation_partial; the list/R and MathComp "
-          "developments are not formally connected; C08 has no Coq correspondence run of its own (the tie is that of C05 and C03). KNOWN "
+    note=("Trusted: as C05/C03/C01. Uniqueness of the minimiser is now a theorem (C08_objective_min_unique: K+jI spd and a midpoint-concave likelihood term give a strictly convex function-space objective; "
+          "C08_fitted_follow_permutation: every minimiser of the reordered problem is the reordered minimiser; instantiated at Coq's R with the generated nn_term - "
+          "C08_nn_fitted_follow_permutation, which adds Epsilon.epsilon_statement through lib/Rstruct.v); existence of a minimiser is not proved; the isometry/scaling laws over lists and the MathComp "
+          "development are otherwise not formally connected; C08 has no Coq correspondence run of its own (the tie is that of C05 and C03). KNOWN "
           "FINDING: the DimensionalityEstimator is not scale-equivariant (poisson_term_scale shows why)."),
     technique="Coq proof (Reals/Coquelicot + MathComp) over generated world-A definitions + real-fit pairs",
     design="4/C08")
